@@ -1,6 +1,7 @@
 package harness
 
 import (
+	"bytes"
 	"runtime"
 	"context"
 	"os"
@@ -52,6 +53,7 @@ type cWorld struct {
 	croute   bool
 	srvIP    uint32
 	srvMAC   []byte
+	expectEth []byte // link-layer destination of the unicast renewal in progress
 	events   []cEvent
 	acts     []L
 	curXid   uint32
@@ -449,9 +451,16 @@ func (w *cWorld) onSend(f rsocks.Frame) {
 			w.renewOn = true
 			w.arpPending = true
 			pre := time.Second // five unanswered look-ups of 200 ms
+			// (the server's address may have moved to other hardware since the last renewal: what this look-up says counts)
+			if w.r2 != nil && w.r2.Intn(3) == 0 {
+				w.srvMAC = append([]byte{}, w.srvMAC...)
+				w.srvMAC[5]++
+			}
+			w.expectEth = []byte{0xff, 0xff, 0xff, 0xff, 0xff, 0xff}
 			if w.r.Intn(3) > 0 {
 				pre = ms(1 + w.r.Intn(190))
 				answer(w.srvMAC, pre)
+				w.expectEth = w.srvMAC
 			}
 			w.renewPre, w.renewT0, w.renewEnd = pre, now, 0
 			// a NAK or a link-up may arrive before the first transmission; otherwise decide at the first frame
@@ -470,6 +479,17 @@ func (w *cWorld) onSend(f rsocks.Frame) {
 		return
 	}
 	xid := rp.msg.xid
+	// link layer: broadcast datagrams to the broadcast address, a unicast renewal to the hardware address its look-up found
+	// (to everybody if nobody answered the look-up)
+	if w.vl16 != nil && len(f.EthDst) == 6 {
+		want := []byte{0xff, 0xff, 0xff, 0xff, 0xff, 0xff}
+		if rp.dst != 0xffffffff && w.expectEth != nil {
+			want = w.expectEth
+		}
+		if !bytes.Equal(f.EthDst, want) {
+			w.vl16.add("eth-dst", "message type %d to %s framed for %s; expected %s (seed %d, %d ns)", rp.typ, ip4(rp.dst), f.EthDst, net.HardwareAddr(want), w.seedv, now)
+		}
+	}
 	w.frames[xid] = append(w.frames[xid], now)
 	if w.haveXid && xid == w.curXid {
 		return // retransmission
